@@ -91,6 +91,49 @@ Theorem C18_F12_refuted : exists t o, single_lines (fmt_stack_str o t) = false.
 Proof. exact F12_refuted. Qed.
 Print Assumptions C18_F12_refuted.
 
+(* String-level lexing, unicode mode.  A rendered line determines its structured line (marker
+   chain, body) uniquely, provided the chain has the shape the formatter builds (C18_chain_shape:
+   it always has), the body does not start with a marker string, and an error line is not empty. *)
+Theorem C18_unicode_lex_unique : forall l1 l2,
+  lex_ok l1 = true -> lex_ok l2 = true -> render false l1 = render false l2 -> l1 = l2.
+Proof. exact lex_unique. Qed.
+Print Assumptions C18_unicode_lex_unique.
+
+(* every line of every formatted tree: ERR only as the last marker, continue_child as the last
+   marker only on a blank line, the child indicator never prepended *)
+Theorem C18_chain_shape : forall o t,
+  Forall (fun l => chain_ok (fst l) (snd l) = true) (fmt_stack_sl o t).
+Proof. exact chain_shape. Qed.
+Print Assumptions C18_chain_shape.
+
+Example C18_lex_ok_example :
+  lex_ok ([CF; CCX; CC; SF], a "f in m at x.py:3" ++ nl) = true
+  /\ lex_ok ([CF; CCX; ERR], a "ValueError: x" ++ nl) = true
+  /\ lex_ok ([CF; CCX; CC], nl) = true.
+Proof. vm_compute. repeat split. Qed.
+
+(* the one line-level ambiguity of unicode mode (the hypothesis err_nb above): an empty error
+   line under a context = the blank line around a populated child stack; both occur *)
+Theorem C18_lex_blank_refuted :
+  let l1 := ([CF; CCX; ERR], nl) in let l2 := ([CF; CCX; CC], nl) in
+  existsb (sline_eqb l1) (fmt_stack_sl uni amb_t1) = true
+  /\ existsb (sline_eqb l2) (fmt_stack_sl uni amb_t2) = true
+  /\ render false l1 = render false l2 /\ l1 <> l2
+  /\ chain_ok (fst l1) (snd l1) = true /\ chain_ok (fst l2) (snd l2) = true
+  /\ bfree (snd l1) = true /\ err_nb (fst l1) (snd l1) = false.
+Proof. exact lex_blank_ambiguous. Qed.
+Print Assumptions C18_lex_blank_refuted.
+
+(* ascii mode is ambiguous as a whole text: start_frame = start_leaf = "+ ", so a one-frame stack
+   and a frame-less stack whose leaf's repr spells that frame's line print the same characters
+   with different skeletons (unicode mode tells them apart) *)
+Theorem C18_ascii_ambiguous_refuted :
+  fmt_stack_str asc_o asc_t1 = fmt_stack_str asc_o asc_t2
+  /\ skeleton_visible asc_o asc_t1 <> skeleton_visible asc_o asc_t2
+  /\ fmt_stack_str uni asc_t1 <> fmt_stack_str uni asc_t2.
+Proof. exact ascii_ambiguous. Qed.
+Print Assumptions C18_ascii_ambiguous_refuted.
+
 (* a non-trivial tree: frame with a context that has an inner stack, a hidden child context, a
    stub and a populated child stack *)
 Definition ex_frame (cs : list context) : frame :=
